@@ -109,6 +109,7 @@ Section RunInd.
   Hypothesis Hpop : forall st cur f par stk,
       I cur f (par :: stk) -> I (fst (pop_into st cur f par)) (snd (pop_into st cur f par)) stk.
   Hypothesis Hset : forall cur f stk a k v, I cur f stk -> I (set_sto cur a k v) f stk.
+  Hypothesis Hvals : forall cur f stk l, I cur f stk -> I (set_vals cur l) f stk.
   Hypothesis Hmove : forall cur f stk a b amt,
       allowed a -> allowed b -> I cur f stk -> 0 <= amt -> amt <= bal cur a -> I (move cur a b amt) f stk.
   Hypothesis Hlog : forall cur f stk l, I cur f stk -> I cur (add_log f l) stk.
@@ -141,7 +142,7 @@ Section RunInd.
       assert (IHk : forall stk cur f, I cur f stk -> Q (run p async rest cur f stk))
         by (intros; apply IH; assumption).
       cbn [run_gen]. cbv zeta.
-      destruct o as [a k v|a b amt|id|id|n| |t amt|st|].
+      destruct o as [a k v|a b amt|id|id|n| |t amt|st| |v|v].
       + apply IHk. apply Hset. exact HI.
       + destruct (Z.ltb_spec amt 0).
         { apply leave_k_Q; [intros; apply IHk; assumption|exact HI]. }
@@ -178,6 +179,8 @@ Section RunInd.
         * apply leave_k_Q; assumption.
       + apply leave_k_Q; [intros; apply IHk; assumption|exact HI].
       + apply leave_k_Q; [intros; apply IHk; assumption|exact HI].
+      + destruct (_ || _)%bool; apply IHk; [|apply Hvals]; exact HI.
+      + destruct (_ && _)%bool; apply IHk; [apply Hvals|]; exact HI.
   Qed.
 End RunInd.
 
@@ -229,6 +232,7 @@ Section RunP.
   Variable allowed : N -> Prop.
   Hypothesis Hscript : allowed (p_script p).
   Hypothesis Pset : forall s a k v, P s -> P (set_sto s a k v).
+  Hypothesis Pvals : forall s l, P s -> P (set_vals s l).
   Hypothesis Pmove : forall s a b amt,
       allowed a -> allowed b -> P s -> 0 <= amt -> amt <= bal s a -> P (move s a b amt).
 
@@ -257,6 +261,7 @@ Section RunP.
       + rewrite pop_into_snap. assumption.
       + assumption.
     - intros c g stk0 a k v (Hc & Hs & Hf). repeat split; auto.
+    - intros c g stk0 l (Hc & Hs & Hf). repeat split; auto.
     - intros c g stk0 a b amt Ha Hb (Hc & Hs & Hf) H0 H1. repeat split; auto.
     - intros c g stk0 l (Hc & Hs & Hf). repeat split; auto.
     - intros c g stk0 m (Hc & Hs & Hf). repeat split; auto.
@@ -319,6 +324,7 @@ Proof.
   - intros c g stk0 Hg _. exact Hg.
   - intros st c g par stk0 Hg. cbn in Hg. rewrite <- Hg. apply root_snap_snap, pop_into_snap.
   - intros c g stk0 a k v Hg. exact Hg.
+  - intros c g stk0 l Hg. exact Hg.
   - intros c g stk0 a b amt _ _ Hg _ _. exact Hg.
   - intros c g stk0 l Hg. rewrite <- Hg. now apply root_snap_snap.
   - intros c g stk0 m Hg. rewrite <- Hg. now apply root_snap_snap.
@@ -375,6 +381,7 @@ Proof.
   - intros st c g par stk0 (Hg & Hf'). inversion Hf'; subst. split; [|assumption].
     apply pop_into_fr_ok; assumption.
   - intros c g stk0 a k v Hg. exact Hg.
+  - intros c g stk0 l Hg. exact Hg.
   - intros c g stk0 a b amt _ _ Hg _ _. exact Hg.
   - intros c g stk0 l Hg. exact Hg.
   - intros c g stk0 m Hg. exact Hg.
@@ -628,6 +635,7 @@ Proof.
   apply (do_execute_P p (fun x => sum_on U (bal x) = sum_on U (bal s)) (fun a => In a U)).
   - apply Hin. cbn. auto.
   - intros. assumption.
+  - intros. assumption.
   - intros x a b amt Ha Hb Hx _ _. rewrite sum_on_move; assumption.
   - apply Hin. cbn. auto.
   - apply Hin. cbn. auto.
@@ -766,7 +774,7 @@ Definition ex_p : params := mkParams 10 100 2 25 1000000 false 4%N 5%N [6%N].
 
 Definition ex_s : wstate :=
   mkW (fun a => if N.eqb a 0 then 1000000 else if N.eqb a 1 then 500000 else if N.eqb a 5 then 50 else 0)
-      (fun a k => if (N.eqb a 1 && N.eqb k 0)%bool then 1%N else 0%N).
+      (fun a k => if (N.eqb a 1 && N.eqb k 0)%bool then 1%N else 0%N) [0%N].
 
 Definition ex_U : list N := [0; 1; 2; 3; 4; 5; 6]%N.
 
@@ -916,3 +924,23 @@ Proof.
   exists ex_p, ex_timeout2, ex_s. split; [vm_compute; discriminate|].
   intro H. apply (f_equal (fun w => sto w 1%N 1%N)) in H. vm_compute in H. discriminate.
 Qed.
+
+(* ------------------------------------------------------------------ validators *)
+
+Lemma failure_keeps_validators p t s :
+  r_status (fst (execute p t s)) <> 0%N ->
+  vals (snd (execute p t s)) = vals s
+  /\ forall a, index_of a (vals (snd (execute p t s))) = index_of a (vals s).
+Proof.
+  intro H. destruct (failure_is_fee_only p t s H) as (E & _). rewrite E. split; reflexivity.
+Qed.
+
+(* a failed grant leaves no trace: the later successful grant appends the validator *)
+Example ex_failed_grant_then_grant :
+  let t1 := mkTx 0 5 0 10000 DCall 60 false [OGrant 3; OSet 1 1 7; OExit 32] in
+  let t2 := mkTx 0 5 0 10000 DCall 60 false [OGrant 3] in
+  let s1 := snd (execute ex_p t1 ex_s) in
+  r_status (fst (execute ex_p t1 ex_s)) = 32%N /\ vals s1 = [0%N] /\ index_of 3%N (vals s1) = -1
+  /\ r_status (fst (execute ex_p t2 s1)) = 0%N /\ vals (snd (execute ex_p t2 s1)) = [0%N; 3%N]
+  /\ index_of 3%N (vals (snd (execute ex_p t2 s1))) = 1.
+Proof. vm_compute. repeat split; reflexivity. Qed.
